@@ -268,6 +268,31 @@ func c20Check(c c20Case, st *stats.Run) error {
 						errs <- pbt.Failf("C20/concurrent-result-differs", "goroutine %d op %d: a valid file does not decrypt with the shared %s identity under concurrency: %v", gi, oi, c.Kinds[(gi+oi)%len(ids)], err)
 						return
 					}
+				case "derive":
+					// the recipient a shared identity hands out (its Recipient method), asked for by every goroutine at once
+					var r age.Recipient
+					switch v := id.(type) {
+					case *age.X25519Identity:
+						r = v.Recipient()
+					case *agessh.Ed25519Identity:
+						r = v.Recipient()
+					case *agessh.RSAIdentity:
+						r = v.Recipient()
+					}
+					if r == nil {
+						break // passphrase identities have no recipient method
+					}
+					fk := hx.PRG(uint64(gi*1000+oi+7), 16)
+					sts, err := r.Wrap(fk)
+					if err != nil {
+						errs <- pbt.Failf("C20/concurrent-result-differs", "Wrap with the recipient derived from the shared identity failed: %v", err)
+						return
+					}
+					got, err := id.Unwrap(sts)
+					if err != nil || !bytes.Equal(got, fk) {
+						errs <- pbt.Failf("C20/concurrent-result-differs", "goroutine %d op %d: Unwrap(id.Recipient().Wrap(k)) on the shared %s identity gives %x, %v", gi, oi, c.Kinds[(gi+oi)%len(ids)], got, err)
+						return
+					}
 				case "wrap":
 					r := recs[(gi+oi)%len(recs)]
 					fk := hx.PRG(uint64(gi*1000+oi), 16)
@@ -331,7 +356,7 @@ func c20Gen(t *rapid.T) c20Case {
 	for i := 0; i < g; i++ {
 		var ops []c20Op
 		for j, n := 0, rapid.IntRange(1, 4).Draw(t, "nops"); j < n; j++ {
-			ops = append(ops, c20Op{Op: rapid.SampledFrom([]string{"enc", "dec", "wrap", "wrap", "dec-all", "enc-close-twice", "dec-many", "dec-damaged"}).Draw(t, "op"), Len: rapid.SampledFrom([]int{0, 10, 1000, chunk, chunk + 5}).Draw(t, "len"), Yield: rapid.IntRange(0, 3).Draw(t, "yield")})
+			ops = append(ops, c20Op{Op: rapid.SampledFrom([]string{"enc", "dec", "wrap", "wrap", "derive", "dec-all", "enc-close-twice", "dec-many", "dec-damaged"}).Draw(t, "op"), Len: rapid.SampledFrom([]int{0, 10, 1000, chunk, chunk + 5}).Draw(t, "len"), Yield: rapid.IntRange(0, 3).Draw(t, "yield")})
 		}
 		c.Goroutines = append(c.Goroutines, ops)
 	}
@@ -352,6 +377,18 @@ func TestC20(t *testing.T) {
 					gs = append(gs, []c20Op{{Op: "wrap"}, {Op: "enc", Len: 100}, {Op: "dec"}, {Op: "enc-close-twice", Len: 70000}})
 				}
 				yield(c20Case{Kinds: []string{k}, Goroutines: gs, Procs: 16, Fresh: true})
+			}
+		}
+	}, check)
+	// the recipient of a shared identity asked for by all goroutines as their very first operation (and once the identity has been used)
+	pbt.Each(s, "concurrent", func(yield func(c20Case)) {
+		for _, k := range []string{"x25519", "ed25519", "rsa"} {
+			for rep := 0; rep < 4; rep++ {
+				var gs [][]c20Op
+				for i := 0; i < 16; i++ {
+					gs = append(gs, []c20Op{{Op: "derive"}, {Op: "derive", Yield: i % 3}, {Op: "dec"}})
+				}
+				yield(c20Case{Kinds: []string{k}, Goroutines: gs, Procs: 16, Fresh: rep < 3})
 			}
 		}
 	}, check)
